@@ -25,8 +25,8 @@ def S(*xs):
 
 
 def mc(name, clients=("c1", "c2"), maxops=2, ops=("send", "call", "ping", "stop"), scripts="ScriptsCore", cfgs="CfgsCore",
-       kinds="InitKindsAddr", faults=(), maxfaults=0, horizon=0, names="NamesSmall", must_cover=(), idle=False, actors=("a1",), extra_actors="NoExtra", extra_handles="NoExtra"):
-    return {"name": name, "Actor": S(*actors), "ExtraActors": "<- " + extra_actors, "ExtraHandles": "<- " + extra_handles, "Client": S(*clients), "MaxOps": maxops, "OpSet": S(*ops), "Scripts": "<- " + scripts,
+       kinds="InitKindsAddr", faults=(), maxfaults=0, horizon=0, names="NamesSmall", must_cover=(), idle=False, actors=("a1",), extra_actors="NoExtra", extra_handles="NoExtra", types=("1",)):
+    return {"name": name, "Actor": S(*actors), "Types": S(*types), "ExtraActors": "<- " + extra_actors, "ExtraHandles": "<- " + extra_handles, "Client": S(*clients), "MaxOps": maxops, "OpSet": S(*ops), "Scripts": "<- " + scripts,
             "Cfgs": "<- " + cfgs, "InitKinds": "<- " + kinds, "Faults": S(*faults), "MaxFaults": maxfaults, "Horizon": horizon, "IdleClock": "TRUE" if idle else "FALSE",
             "Names": "<- " + names, "must_cover": list(must_cover)}
 
@@ -113,6 +113,21 @@ PROPS = {
         "families": [("restart", 250, 2500), ("timers", 150, 1500)],
         "relevant": r'"op":"restart"|ctx_restart', "relevant_min": 1,
     },
+    "C08": {
+        "invariants": ["C08", "Term_RegNoHang", "C14"],
+        "mc": {"quick": [mc("Reg-2x2", actors=("a1", "r1", "r2"), ops=("from_registry", "register", "unregister", "try_from_registry", "already_running", "stop"),
+                            scripts="ScriptsPlain", cfgs="CfgsSvc", names="NamesMore", must_cover=("RegIssue", "RegBody", "RegPingReturn", "TryFromRegistry")),
+                         mc("Reg-stop-2x2", actors=("a1", "r1", "r2"), ops=("from_registry", "replace", "stop", "send", "already_running"),
+                            scripts="ScriptsStop", cfgs="CfgsSvc", names="NamesMore")],
+               "thorough": [mc("Reg-2x3", maxops=3, actors=("a1", "r1", "r2", "r3"), ops=("from_registry", "register", "unregister", "try_from_registry", "already_running", "stop", "replace"),
+                               scripts="ScriptsPlain", cfgs="CfgsSvc", names="NamesMore"),
+                            mc("Reg-3x2", clients=C3, actors=("a1", "r1", "r2", "r3"), ops=("from_registry", "setup", "unregister", "stop", "try_from_registry"),
+                               scripts="ScriptsPlain", cfgs="CfgsSvc", names="NamesMore")]},
+        "dev_demo": [("D1", mc("Reg-2x2", actors=("a1", "r1", "r2"), ops=("from_registry", "register", "unregister", "stop"), scripts="ScriptsPlain", cfgs="CfgsSvc", names="NamesMore")),
+                     ("D4", mc("Reg-2x2", actors=("a1", "r1", "r2"), ops=("from_registry", "already_running", "stop"), scripts="ScriptsPlain", cfgs="CfgsSvc", names="NamesMore"))],
+        "families": [("registry", 300, 3000)],
+        "relevant": r'"op":"(from_registry|setup|register|replace|unregister|try_from_registry|already_running)"', "relevant_min": 2,
+    },
     "C10": {
         "invariants": ["C10", "Term_NoTimerLeak", "Term_ExactlyK", "Term_WeakInert"],
         "mc": {"quick": [mc("Timers-idle-1x1", clients=("c1",), maxops=1, ops=("send", "stop", "drop"), scripts="ScriptsPlain", cfgs="CfgsTimers", horizon=6, idle=True,
@@ -150,8 +165,8 @@ PROPS = {
         "mc": {"quick": [mc("Query-2x3", maxops=3, ops=QOPS, scripts="ScriptsPlain", cfgs="CfgsUnb", must_cover=("Query", "AwaitReturn", "StopTaken"))],
                "thorough": [mc("Query-3x3", maxops=3, clients=C3, ops=QOPS, scripts="ScriptsPlain", cfgs="CfgsUnb", kinds="InitKindsAW")]},
         "dev_demo": [("D1", mc("Query-2x3", maxops=3, ops=QOPS, scripts="ScriptsPlain", cfgs="CfgsUnb"))],
-        "families": [("life", 250, 2500)],
-        "relevant": r'"op":"(stopped|running)"', "relevant_min": 1,
+        "families": [("life", 200, 2000), ("registry", 150, 1500)],
+        "relevant": r'"op":"(stopped|running|try_from_registry|already_running)"', "relevant_min": 1,
     },
     "C15": {
         "invariants": ["C15"],
